@@ -8,9 +8,9 @@ use yasna::Tag;
 #[cfg(feature = "pem")]
 use crate::ENCODE_CONFIG;
 use crate::{
-	dt_to_generalized, oid, write_distinguished_name, write_dt_utc_or_generalized,
-	write_x509_authority_key_identifier, write_x509_extension, Certificate, Error, Issuer,
-	KeyIdMethod, KeyPair, KeyUsagePurpose, SerialNumber,
+	check_ia5_string, check_time, dt_to_generalized, oid, write_distinguished_name,
+	write_dt_utc_or_generalized, write_x509_authority_key_identifier, write_x509_extension,
+	Certificate, Error, Issuer, KeyIdMethod, KeyPair, KeyUsagePurpose, SerialNumber,
 };
 
 /// A certificate revocation list (CRL)
@@ -107,6 +107,11 @@ pub struct CrlDistributionPoint {
 }
 
 impl CrlDistributionPoint {
+	/// Checks that all URIs can be written as `IA5String`.
+	pub(crate) fn check_encodable(&self) -> Result<(), Error> {
+		self.uris.iter().try_for_each(|uri| check_ia5_string(uri))
+	}
+
 	pub(crate) fn write_der(&self, writer: DERWriter) {
 		// DistributionPoint SEQUENCE
 		writer.write_sequence(|writer| {
@@ -208,6 +213,22 @@ impl CertificateRevocationListParams {
 
 		if !issuer.key_usages.is_empty() && !issuer.key_usages.contains(&KeyUsagePurpose::CrlSign) {
 			return Err(Error::IssuerNotCrlSigner);
+		}
+
+		// Everything the DER writer would otherwise panic on.
+		issuer.distinguished_name.check_encodable()?;
+		check_time(self.this_update)?;
+		check_time(self.next_update)?;
+		if let Some(issuing_distribution_point) = &self.issuing_distribution_point {
+			issuing_distribution_point
+				.distribution_point
+				.check_encodable()?;
+		}
+		for revoked_cert in &self.revoked_certs {
+			check_time(revoked_cert.revocation_time)?;
+			if let Some(invalidity_date) = revoked_cert.invalidity_date {
+				check_time(invalidity_date)?;
+			}
 		}
 
 		Ok(CertificateRevocationList {
